@@ -33,9 +33,10 @@ class TagProba(BaseEstimator):
 
     column 0 of X must be the row id, column 1 the informative integer feature."""
 
-    def __init__(self, sign=1, run=0):
+    def __init__(self, sign=1, run=0, tagged=True):
         self.sign = sign
         self.run = run
+        self.tagged = tagged   # tags are numbered in order of first fit, i.e. they depend on thread scheduling
 
     def fit(self, X, y):
         with _lock:
@@ -50,7 +51,7 @@ class TagProba(BaseEstimator):
     def _score(self, X):
         with _lock:
             RUNS[self.run]["log"].append(("score", self.tag_, X[:, 0].astype(np.int64).tolist(), None))
-        return self.sign * X[:, 1] * TAGMOD + self.tag_
+        return self.sign * X[:, 1] * TAGMOD + (self.tag_ if self.tagged else 0)
 
     def predict_proba(self, X):
         return self._score(X)
